@@ -373,7 +373,9 @@ Proof.
     destruct (verify_mtp revroot (Some (a_mtp ans)) (cs_nonce cs) 0) eqn:Hv; cbn [negb] in H; [|discriminate].
     destruct (r_ex (a_mtp ans)) eqn:Hex; [discriminate|].
     exists rslv, ans, s, revroot. rewrite Hiss. cbn [ts_state ts_ctr ts_rtr ts_ror].
-    apply v78_verify_mtp_true_iff in Hv. repeat split; auto.
+    apply v78_verify_mtp_true_iff in Hv.
+    split; [reflexivity|]. split; [exact Hans|]. split; [exact Hs|]. split; [exact Hrr|].
+    split; [exact Hv|exact Hex].
   - intros (r & a & s & revroot & A & B & C & Dd & Ee & F).
     inversion A; subst r. rewrite Hans in B. inversion B; subst a.
     rewrite Hiss in C, Dd. cbn [ts_state ts_ctr ts_rtr ts_ror] in C, Dd.
@@ -443,8 +445,8 @@ Proof.
     rewrite v78_bind_ok_iff in H. destruct H as (ans & Hvs & _).
     apply v78_coerce_status_iff in Hco.
     exists auth, sig, hi, hv, ahi, ahv, mtp, ctr, st, d, cs.
-    repeat split; auto.
-    + apply Hmf.
+    repeat match goal with |- _ /\ _ => split end; auto.
+    + split; [exact Hmf|reflexivity].
     + apply v78_validate_status_ok_iff. exists ans; exact Hvs.
   - intros (auth & sig & hi & hv & ahi & ahv & mtp & ctr & st & d & cs &
             Hauth & Hsig & Hhh & Hmsg & Hsv & Hmtp & Hex & Hctr & Hahh & Hcar & Hst & Hd & Hpg &
@@ -490,7 +492,7 @@ Proof.
     apply Z.eqb_eq in Hrc. subst r.
     apply v78_validate_issuer_state_ok_iff in H. destruct H as (st' & Hst).
     assert (st' = st) by (destruct Hst as [A _]; congruence). subst st'.
-    exists d, st, hi, hv, mtp, ctr. repeat split; auto; apply Hst.
+    exists d, st, hi, hv, mtp, ctr. repeat match goal with |- _ /\ _ => split end; auto.
   - intros (d & st & hi & hv & mtp & ctr & Hd & Hpg & Hhh & Hmtp & Hex & Hcar & Hctr & Hst).
     assert (Hcp : check_state_published (s_did b) (s_state b) = Ok st).
     { apply v78_check_state_published_ok_iff. exists d. destruct Hst as [A _]. auto. }
